@@ -387,3 +387,85 @@ func Implies(pc, goal *F) ImplResult {
 	}
 	return ImplResult{Holds: true, NAtoms: n}
 }
+
+// Simplify applies cheap, sound rewrites: x || !x = true, x && !x = false, duplicate removal, and
+// factoring of conjuncts common to all disjuncts ((a && x) || (b && x) = x && (a || b)).
+func Simplify(f *F) *F {
+	switch f.Op {
+	case OpNot:
+		k := Simplify(f.Kids[0])
+		return Not(k)
+	case OpAnd, OpOr:
+		var ks []*F
+		seen := map[string]bool{}
+		for _, k := range f.Kids {
+			k = Simplify(k)
+			s := k.String()
+			if seen[s] {
+				continue
+			}
+			seen[s] = true
+			ks = append(ks, k)
+		}
+		// complementary pair
+		for _, k := range ks {
+			if seen[Not(k).String()] {
+				if f.Op == OpOr {
+					return True()
+				}
+				return False()
+			}
+		}
+		if f.Op == OpAnd {
+			return And(ks...)
+		}
+		// factor common conjuncts out of a disjunction
+		conj := func(k *F) []*F {
+			if k.Op == OpAnd {
+				return k.Kids
+			}
+			return []*F{k}
+		}
+		if len(ks) >= 2 {
+			common := map[string]*F{}
+			for _, c := range conj(ks[0]) {
+				common[c.String()] = c
+			}
+			for _, k := range ks[1:] {
+				have := map[string]bool{}
+				for _, c := range conj(k) {
+					have[c.String()] = true
+				}
+				for s := range common {
+					if !have[s] {
+						delete(common, s)
+					}
+				}
+			}
+			if len(common) > 0 {
+				var outer []*F
+				var keys []string
+				for s := range common {
+					keys = append(keys, s)
+				}
+				sort.Strings(keys)
+				for _, s := range keys {
+					outer = append(outer, common[s])
+				}
+				var rest []*F
+				for _, k := range ks {
+					var left []*F
+					for _, c := range conj(k) {
+						if _, ok := common[c.String()]; !ok {
+							left = append(left, c)
+						}
+					}
+					rest = append(rest, And(left...))
+				}
+				return And(append(outer, Simplify(Or(rest...)))...)
+			}
+		}
+		return Or(ks...)
+	}
+	return f
+}
